@@ -16,7 +16,8 @@ def run(chk):
     chk.assumptions += ['E-MIR: biodivine set operations follow the bit-vector model of DESIGN.md 3.4 (var_pre = flip & can-update, pre = union over variables)',
                         'the progress callback has no effect on the computed sets']
     from .. import conformance
-    conformance.run(chk, 2, 1); conformance.run(chk, 3, 0, samples=2)
+    from ..run import guard as _guard
+    _guard(chk, 'library-model conformance', conformance.run, chk, 2, 1); _guard(chk, 'library-model conformance', conformance.run, chk, 3, 0, samples=2)
     from ..run import run_parallel
     run_parallel(chk, 'hv.props.c11', 'kernel_laws', [(n, c, thorough) for n, c in configs])
     e_uni(chk, thorough)
